@@ -52,3 +52,23 @@ Theorem C17_code_to_cfg_is_model : forall (S : SR) (s0 : nat) (nt : nat -> nat) 
   gen_to_cfg_right S s0 nt m = to_cfg_right s0 nt m /\ gen_to_cfg_left S s0 nt m = to_cfg_left s0 nt m.
 Proof. intros; split; [apply gen_to_cfg_right_model|apply gen_to_cfg_left_model]. Qed.
 Print Assumptions C17_code_to_cfg_is_model.
+
+(* Byte-level conversion of a grammar (CFG.to_bytes, regenerated from cfg.py on every run: every terminal of a rule
+   body is replaced by the bytes of its encoding): for every grammar over every commutative semiring, every
+   nonterminal, every height and every byte string, the byte-level grammar gives the byte string the total weight of
+   the symbol strings whose encoding it is -- each decoding once -- and zero when it is not an encoding (e.g. a
+   truncated multi-byte character).  Any code with non-empty code words (UTF-8 in the code). *)
+From GV.model Require Import Cfg.
+From GV.gen Require Gen_CfgBytes.
+From GV.proofs Require CfgBytesProofs GenCfgBytesBridge.
+Theorem C17_cfg_to_bytes : forall (S : SR) (enc : nat -> list nat) (V : list nat), NoDup V -> (forall a, In a V -> enc a <> []) ->
+  forall (G : grammar S), (forall (r : rule S) a, In r G -> In (T a) (rbody r) -> In a V) ->
+  forall h X bs fuel, length bs <= fuel ->
+  W (Gen_CfgBytes.gen_cfg_to_bytes S enc G) h X bs = bsum (decodings enc V fuel bs) (fun xs => W G h X xs) /\
+  (decodings enc V fuel bs = [] -> W (Gen_CfgBytes.gen_cfg_to_bytes S enc G) h X bs = s0).
+Proof.
+  intros S enc V HV He G HG h X bs fuel Hf. rewrite GenCfgBytesBridge.gen_cfg_to_bytes_model. split.
+  - exact (CfgBytesProofs.cfg_to_bytes_W S enc V HV He G HG h X bs fuel Hf).
+  - intros Hd. exact (CfgBytesProofs.cfg_to_bytes_W_undecodable S enc V HV He G HG h X bs fuel Hf Hd).
+Qed.
+Print Assumptions C17_cfg_to_bytes.
